@@ -41,6 +41,8 @@ func (fc *FnCtx) instr(ins ssa.Instruction) {
 		st.next = fc.define(fc.freshName("next"), Add(st.next, IntLit(1)))
 		fc.zeroObject(st, obj)
 		fc.vals[x] = PtrV(obj, IntLit(0))
+		at := x.Type().Underlying().(*types.Pointer).Elem()
+		fc.assume(Eq(otypeOf(obj), IntLit(fc.eng.typeIDByName(types.TypeString(at, nil)))))
 	case *ssa.BinOp:
 		fc.binOpInstr(x)
 	case *ssa.UnOp:
@@ -379,6 +381,12 @@ func (fc *FnCtx) indexValue(x *ssa.Index) {
 	a := fc.val(x.X)
 	idx := fc.toIndex(fc.val(x.Index).T, x.Index.Type())
 	switch t := x.X.Type().Underlying().(type) {
+	case *types.Basic:
+		if a.K == KLeaf && a.T.Sort == SStr {
+			fc.oblige("bounds", fc.desc(x.Pos(), x.String()), x.Pos(), And(Le(IntLit(0), idx), Lt(idx, strLen(a.T))))
+			fc.setVal(x, Leaf(mk(SBV(8), "s_at", a.T, idx)))
+			return
+		}
 	case *types.Array:
 		fc.oblige("bounds", fc.desc(x.Pos(), x.String()), x.Pos(), And(Le(IntLit(0), idx), Lt(idx, IntLit(t.Len()))))
 		if n, ok := isSmallByteArray(x.X.Type()); ok && a.K == KLeaf {
@@ -516,6 +524,7 @@ func (fc *FnCtx) makeSlice(x *ssa.MakeSlice) {
 	st.next = fc.define(fc.freshName("next"), Add(st.next, IntLit(1)))
 	fc.zeroObject(st, obj)
 	fc.commitHeaps()
+	fc.assume(Eq(otypeOf(obj), IntLit(fc.eng.typeIDByName(arrTag(elem)))))
 	fc.vals[x] = SliceV(obj, IntLit(0), fc.define(fc.freshName("len"), ln), fc.define(fc.freshName("cap"), cp))
 }
 
@@ -754,6 +763,14 @@ func (fc *FnCtx) ret(x *ssa.Return) {
 	}
 	if fr, ok := fc.funcFrame(fc.cur); ok {
 		fc.oblige("frame", "modifies", x.Pos(), fr)
+	}
+	for _, pz := range fc.c.Preserves {
+		eqs, err := fc.preservesEqs(fc.entryEnv(), pz, fc.entry, fc.cur)
+		if err != nil {
+			fc.unbound = append(fc.unbound, fmt.Sprintf("preserves %q: %v", pz, err))
+			continue
+		}
+		fc.oblige("preserves", pz, x.Pos(), eqs)
 	}
 	fc.retIdx++
 }
